@@ -489,6 +489,15 @@ class Scn:
             del p.children[comp_key(n)]
         return self._fs("fs_remove", dict(path=path), go)
 
+    def fs_remove_dir_all(self, path):
+        def go():
+            from .models.fs import comp_key, FsErr
+            p, n, ino = self.env.vfs.walk(SBytes.of(path), follow_last=False)
+            if ino is None:
+                raise FsErr("NotFound")
+            del p.children[comp_key(n)]
+        return self._fs("fs_remove_dir_all", dict(path=path), go)
+
     def fs_symlink(self, target, path):
         def go():
             from .models.fs import comp_key, Inode, FsErr
@@ -749,6 +758,8 @@ class Concretiser:
             suffix = "*"
             if fired.get("path") is not None:
                 p = self.bytes_of(fired["path"]).decode("utf-8", "replace")
+                if p.startswith(ROOT + "/"):
+                    p = p[len(ROOT) + 1:]          # the native root is a temp directory: match relative to it
                 comps = [c for c in p.split("/") if c]
                 suffix = "/".join(comps[-2:]) if len(comps) >= 2 else p
                 if ".tmp" in comps[-1]:
